@@ -4,6 +4,7 @@ import numpy as np
 from common import rng
 
 LEAN_MODULE = 'PGM.Properties.C12'
+LEAN_EXTRA = ['PGM.Properties.C12B']
 TRUSTED = ['Lean 4.33 kernel', 'axioms: propext, Classical.choice, Quot.sound',
            'networkx contracts: find_cliques = all maximal cliques (compared per case with the model\'s Bron-Kerbosch), '
            'minimum_spanning_tree = some spanning tree (its output is checked by the Lean-verified checkJT, never assumed), '
@@ -22,13 +23,26 @@ def build_impl(dom, cliques, order):
     from mbi import Domain
     from mbi.junction_tree import JunctionTree
     d = Domain([a for a, _ in dom], [s for _, s in dom])
-    jt = JunctionTree(d, [tuple(c) for c in cliques], order)
+    draws = []
+    real_choice = np.random.choice
+
+    def choice(a, *args, **kw):
+        i = real_choice(a, *args, **kw)
+        draws.append(int(i))
+        return i
+    np.random.choice = choice
+    try:
+        jt = JunctionTree(d, [tuple(c) for c in cliques], order)
+    finally:
+        np.random.choice = real_choice
     nodes = [list(n) for n in jt.maximal_cliques()]
     edges = [[list(a), list(b)] for a, b in jt.tree.edges()]
     mp = [[list(a), list(b)] for a, b in jt.mp_order()]
     seps = {(tuple(a), tuple(b)): tuple(s) for (a, b), s in jt.separator_axes().items()}
     nbrs = {tuple(k): set(map(tuple, v)) for k, v in jt.neighbors().items()}
-    return {'order': list(jt.elimination_order), 'nodes': nodes, 'edges': edges, 'mp_order': mp, 'seps': seps, 'nbrs': nbrs}
+    n = len(dom)
+    picks = [draws[i:i + n] for i in range(0, len(draws), n)] if n else []
+    return {'picks': picks, 'order': list(jt.elimination_order), 'nodes': nodes, 'edges': edges, 'mp_order': mp, 'seps': seps, 'nbrs': nbrs}
 
 
 def spec(dom, cliques, art):
@@ -195,6 +209,10 @@ def run(res, drv, tier, seed):
             res.violation('correspondence', f'verified checker rejects the tree ({failed}) but the independent validity check accepts it',
                           dict(rp, observed=obs, model=o, stream='C12.checkJT'))
             continue
+        if not o['check'].get('topo', True):
+            res.violation('correspondence', 'mp_order is not a topological sort of the model dependency digraph (messages, depEdges)',
+                          dict(rp, observed=obs, model=o, stream='C12.topo'))
+            continue
         if sorted(map(tuple, o['model_nodes'])) != sorted(tuple(n) for n in art['nodes']):
             res.violation('correspondence', f'maximal cliques differ: model {sorted(o["model_nodes"])} impl {sorted(art["nodes"])}',
                           dict(rp, observed=obs, model=o, stream='C12.cliques'))
@@ -206,6 +224,25 @@ def run(res, drv, tier, seed):
         if order is None and o['greedy'] != art['order']:
             res.violation('correspondence', f'default elimination order: model {o["greedy"]} impl {art["order"]}',
                           dict(rp, observed=obs, model=o, stream='C12.greedy'))
+
+
+    # stochastic / integer mode: the recorded draws of np.random.choice drive the model's greedyOrderPicks
+    if drv:
+        pk = [(c, a) for c, a in zip(cases, arts) if isinstance(c[2], int) and 'raise' not in a]
+        outs = drv.run([{'op': 'jt_picks', 'dom': c[0], 'cliques': c[1], 'picks': a['picks']} for c, a in pk])
+        for (c, a), o in zip(pk, outs):
+            res.count('int-mode orders replayed through greedyOrderPicks', len(a['picks']))
+            rp = {'request': {'dom': c[0], 'cliques': c[1], 'order': c[2]}, 'picks': a['picks']}
+            if not o['ok']:
+                res.violation('correspondence', 'driver error ' + o['err'], dict(rp, stream='C12.picks'))
+            elif len(a['picks']) != c[2] or any(len(x) != len(c[0]) for x in a['picks']):
+                res.violation('correspondence', f'integer mode made {[len(x) for x in a["picks"]]} draws, expected {c[2]} runs of {len(c[0])}',
+                              dict(rp, stream='C12.picks'))
+            elif o['out']['chosen'] != a['order']:
+                res.violation('correspondence', f'integer-mode elimination order: model {o["out"]["chosen"]} impl {a["order"]}',
+                              dict(rp, model=o['out'], stream='C12.picks'))
+            elif sorted(a['order']) != sorted(x for x, _ in c[0]):
+                res.violation('failing-input', f'integer-mode elimination order {a["order"]} is not a permutation of the domain', rp, key='jt:order')
 
 
 def search(res, tier, seed, broken):
